@@ -425,7 +425,11 @@ def run_both(pid, mod, cases, rundir, tag="main", profile="release"):
                 f.write(c + "\n")
     dexe = build_driver(getattr(mod, "DRIVER_PID", pid))
     try:
-        run_side(hexe, getattr(mod, "HARNESS_ARGS", []), cp, ip, timeout=int(os.environ.get("VERIF_HARNESS_TIMEOUT_S", "3000")))
+        # a harness run that takes far longer than the tier ever needs is a hang of the code under test: reported as
+        # a broken tie (and bisected to the case), not waited for
+        tier_now = os.environ.get("VERIF_TIER_CURRENT", "quick")
+        dflt = getattr(mod, "HARNESS_TIMEOUT_S", {}).get(tier_now, 600 if tier_now == "quick" else 3000)
+        run_side(hexe, getattr(mod, "HARNESS_ARGS", []), cp, ip, timeout=int(os.environ.get("VERIF_HARNESS_TIMEOUT_S", str(dflt))))
     except (RuntimeError, subprocess.TimeoutExpired) as e:
         # the implementation side died or hung on these cases (abort, dead-lock, ...): the tie no longer checks
         raise CorrBroken("the harness run against the implementation failed: %s" % str(e)[-1500:], cases[len(pre):])
@@ -586,6 +590,7 @@ def main_check(pid, argv):
     ap.add_argument("--no-proof", action="store_true", help="debugging only: skip the proof step")
     args = ap.parse_args(argv)
     tier = "thorough" if args.tier == "thorough" else "quick"
+    os.environ["VERIF_TIER_CURRENT"] = tier
     low = pid.lower()
     sys.path.insert(0, os.path.join(ROOT, "props"))
     mod = importlib.import_module(low)
